@@ -28,6 +28,11 @@ UNKNOWN_VALS = ['value', '1', '-5', '007', 'a/b', '/x', '1.0', 'text/x-diff', '_
 UNKNOWN_LONG_VALS = ['7' * 4300, '7' * 4301, '-' + '3' * 4400]
 
 
+def sl_py_json(j):
+    import streamlib
+    return streamlib.py_json(j)
+
+
 def conv(v):
     """spec: integer-valued option values (-?[0-9]+) are integers"""
     import re
@@ -108,7 +113,7 @@ def make_content(rng, kind, eff_enc, own_diff_enc=None):
         return body, opts, dict(text=exp_text, _ast=ast), len(body_lines)
     if kind == 'meta':
         enc = eff_enc
-        d = gc.gen_dict(rng)
+        d = gc.as_json_value(sl_py_json(gc.gen_dict(rng)))
         style = rng.choice(['pretty', 'compact', 'spaced'])
         if style == 'pretty':
             t = json.dumps(d, indent=4, sort_keys=True, separators=(',', ': '))
@@ -149,7 +154,7 @@ def make_content(rng, kind, eff_enc, own_diff_enc=None):
             exp = dict(text_hex=(b''.join(l + nl for l in lines)).hex())
             form = 'rawtext'
         else:
-            d = gc.gen_dict(rng)
+            d = gc.as_json_value(sl_py_json(gc.gen_dict(rng)))
             t = json.dumps(d, indent=rng.choice([None, 2, 4]), sort_keys=True)
             lines = [l.encode('ascii') for l in t.split('\n')]
             indent = None
